@@ -261,7 +261,9 @@ def check_goal(I, goal, name, tag, unit, extra_hyps=()):
     r = s.check()
     model = None
     status = "unsat" if r == z3.unsat else ("sat" if r == z3.sat else "unknown")
-    if r == z3.sat:
+    described = I.c.__dict__.setdefault("described", {})
+    if r == z3.sat and tag != "canary" and described.get(name, 0) < 2:
+        described[name] = described.get(name, 0) + 1
         try:
             model = I.w.describe_model(I, s.model())
         except Exception as e:  # noqa: BLE001
@@ -382,7 +384,10 @@ def add_lets(I, ct, env, new_heap, old_heap, outcome="normal"):
     for k, text in ct.lets.items():
         env[k] = eval_spec(I, text, env, new_heap, old_heap)
     for k, fd in ct.fresh.items():
-        env[k] = eval_spec(I, fd["is"], env, new_heap, old_heap)
+        try:
+            env[k] = eval_spec(I, fd["is"], env, new_heap, old_heap)
+        except Unsupported:
+            pass  # not defined in this outcome (e.g. `result` after a raise)
     return env
 
 
@@ -546,11 +551,9 @@ def apply_contract(I, ct, f, args, kwargs, fr, node):
         c.heap.set(dn, da)
         c.heap.set(mn, ma)
     for g in fs.ghost:
-        cur = c.heap.cur.get(g) if g in c.heap.cur else c.heap.init.get(g)
-        if cur is None:
-            srt = I.w.ghost_sorts[g]
-            cur = c.heap.get(g, srt)
-        c.heap.set(g, c.fresh("hvg_" + g, cur.sort()))
+        if g == "*":
+            continue
+        c.heap.set(g, c.fresh("hvg_" + g, named_field_sort(I, g)))
     env2 = dict(env)
     if out == "normal":
         alloc_fresh(I, ct, "normal", fresh_objs)
@@ -641,13 +644,34 @@ def alloc_fresh(I, ct, outcome, fresh_objs):
 
 def bind_fresh(I, ct, outcome, fresh_objs, env2, post, pre):
     for k, fd in ct.fresh.items():
-        defd = eval_spec(I, fd["is"], env2, post, pre)
+        try:
+            defd = eval_spec(I, fd["is"], env2, post, pre)
+        except Unsupported:
+            continue
         env2[k] = defd
         if k not in fresh_objs:
             continue
         when = eval_bool(I, fd.get("when", "True"), env2, pre, pre)
         I.c.assume(z3.Implies(when, defd.ref == fresh_objs[k].ref))
         env2[k] = defd
+
+
+def named_field_sort(I, name):
+    """Sort of a heap field given by name (ghost fields, dom[K,V] / map[K,V] dict fields)."""
+    if name in I.w.ghost_sorts:
+        return I.w.ghost_sorts[name]
+    cur = I.c.heap.cur.get(name)
+    if cur is None:
+        cur = I.c.heap.init.get(name)
+    if cur is not None:
+        return cur.sort()
+    if name.startswith(("dom[", "map[")):
+        k, v = name[4:-1].split(",", 1)
+        prim = {"int": IntS, "str": StrS, "key3": Key3, "json": JsonS, "bool": BoolS}
+        ks = prim.get(k, Ref)
+        vs = prim.get(v, Ref)
+        return arr(Ref, arr(ks, BoolS if name.startswith("dom[") else vs))
+    raise Unsupported(f"unknown heap field {name} in a modifies clause")
 
 
 def havoc_object(I, o):
@@ -670,13 +694,14 @@ def havoc_object(I, o):
 
 
 class LoopContract:
-    def __init__(self, qualname, ordinal, invariant=(), modifies=(), lets=None, step=()):
+    def __init__(self, qualname, ordinal, invariant=(), modifies=(), lets=None, step=(), assume_iterated_untouched=False):
         self.qualname = qualname
         self.ordinal = ordinal
         self.invariant = list(invariant)
         self.modifies = list(modifies)
         self.lets = dict(lets or {})
         self.step = list(step)  # two-state clauses of one iteration (old = the iteration's start)
+        self.assume_iterated_untouched = assume_iterated_untouched  # stated assumption instead of the resize obligation
 
 
 def loop_ordinal(func, stmt):
@@ -746,7 +771,10 @@ def exec_symbolic_for(I, s, it, fr):
         c.assume(g)
     c.wf_snaps.append(mid)
     # the iterated dict itself must be unchanged by the loop (else CPython raises RuntimeError)
-    check_goal(I, z3.And(I.d_dom(d) == snapdom), "loop/iterated-dict-not-resized", "helper", getattr(I, "unit_name", ""))
+    if lc.assume_iterated_untouched:
+        c.assume(z3.And(I.d_dom(d) == snapdom, I.d_map(d) == snapmap))
+    else:
+        check_goal(I, z3.And(I.d_dom(d) == snapdom), "loop/iterated-dict-not-resized", "helper", getattr(I, "unit_name", ""))
     # 3. either the loop is finished ...
     if c.branch(done == snapdom, "loop-exit"):
         I.last_done = done
@@ -798,8 +826,9 @@ def _havoc(I, fs):
         c.heap.set(dn, da)
         c.heap.set(mn, ma)
     for g in fs.ghost:
-        srt = I.w.ghost_sorts[g]
-        c.heap.set(g, c.fresh("hvg_" + g, srt))
+        if g == "*":
+            continue
+        c.heap.set(g, c.fresh("hvg_" + g, named_field_sort(I, g)))
 
 
 def exec_async_for(I, s, it, fr):
